@@ -12,9 +12,10 @@ CONSTANTS
 ANY == 999
 
 VARIABLES st, out,
-          tk, bad       \* monitors folded over the events of the behaviour (ghost)
+          tk, bad,      \* monitors folded over the events of the behaviour (ghost)
+          lbl           \* the step as a script token (ghost; used to turn paths of the state graph into test scripts)
 
-vars == <<st, out, tk, bad>>
+vars == <<st, out, tk, bad, lbl>>
 
 CONSTANT WithMonitors   \* fold the monitors (costs states); FALSE keeps tk/bad constant
 
@@ -25,7 +26,18 @@ ActSeqs(kind, sid) ==
     {<<>>} \cup (IF MaxActs >= 1 THEN {<<a>> : a \in legal} ELSE {})
            \cup (IF MaxActs >= 2 THEN {<<a, b>> : a \in legal, b \in legal} ELSE {})
 
-Init == st = InitSt /\ out = Tau /\ tk = TkInit /\ bad = {}
+Init == st = InitSt /\ out = Tau /\ tk = TkInit /\ bad = {} /\ lbl = "init"
+
+ActStr(a) == CASE a.k = "T"  -> "T" \o ToString(a.a)
+               [] a.k = "W"  -> "W" \o ToString(a.a) \o "." \o ToString(a.p)
+               [] a.k = "X"  -> "X"
+               [] a.k \in {"S", "F"} -> IF a.a = NONE THEN a.k ELSE a.k \o ToString(a.a)
+               [] a.k = "PC" -> "PC" \o ToString(a.a) \o "." \o ToString(a.b)
+               [] a.k = "PW" -> "PW" \o ToString(a.a) \o "." \o ToString(a.b) \o "." \o ToString(a.p)
+               [] a.k = "PX" -> "PX"
+               [] a.k = "PR" -> "PR" \o ToString(a.a)
+RECURSIVE ActsStr(_, _)
+ActsStr(acts, i) == IF i > Len(acts) THEN "" ELSE ActStr(acts[i]) \o (IF i < Len(acts) THEN "," ELSE "") \o ActsStr(acts, i + 1)
 
 Fold == IF WithMonitors
         THEN LET j == Judge(tk, out') IN tk' = j.tk /\ bad' = bad \cup j.findings
@@ -35,19 +47,23 @@ DoCall == /\ Idle(st)
           /\ \E o \in EnvOps :
                 /\ InContract(st, o)
                 /\ LET res == CallStep(st, o) IN st' = res.st /\ out' = res.out
+                /\ lbl' = "call|" \o o.op \o "|" \o ToString(o.a) \o "|" \o ToString(o.b) \o "|" \o ToString(o.p)
 
 MayAct(f) == <<f.m, f.x>> \in EnvPoints \/ <<f.m, ANY>> \in EnvPoints \/ <<ANY, ANY>> \in EnvPoints
 
 DoCb == /\ AtCallback(st)
         /\ \E acts \in (IF MayAct(Head(st.k)) THEN ActSeqs(CtrlKind(Head(st.k).m), Head(st.k).x) ELSE {<<>>}) :
-              LET res == CbStep(st, acts) IN st' = res.st /\ out' = res.out
+              /\ LET res == CbStep(st, acts) IN st' = res.st /\ out' = res.out
+              /\ lbl' = "cb|" \o ToString(Head(st.k).m) \o "." \o ToString(Head(st.k).s) \o "." \o ToString(Head(st.k).j) \o ":" \o ActsStr(acts, 1)
 
 DoRet == /\ AtReturn(st)
          /\ LET res == RetStep(st) IN st' = res.st /\ out' = res.out
+         /\ lbl' = "ret"
 
 DoInternal == /\ AtInternal(st)
               /\ st' = Internal(st)
               /\ out' = Tau
+              /\ lbl' = "tau"
 
 Next == (DoCall \/ DoCb \/ DoRet \/ DoInternal) /\ Fold
 
@@ -71,6 +87,10 @@ SmokeActs == {A("T", d, 0, 0) : d \in States} \cup {A("X", 0, 0, 0), A("S", NONE
 \* requests and guards: every request source, every guard decision over successive rounds
 GuardOpsQ == {O("ctor"), O("dtor"), O("enter"), O("exit"), O("update")} \cup {Op("ito", d, 0, 0) : d \in States}
 TinyOps == {O("ctor"), O("dtor"), O("update"), Op("ito", 1, 0, 0)}
+TourOps == {O("ctor"), O("dtor"), O("update"), Op("react", 1, 0, 0), Op("ito", 1, 0, 0), Op("ito", 0, 0, 0), Op("to", 1, 0, 0), Op("pc", 0, 1, 0), Op("succeed", 0, 0, 0), Op("rt", 0, 0, 0)}
+TourActs == {A("T", 0, 0, 0), A("T", 1, 0, 0), A("X", 0, 0, 0), A("S", NONE, 0, 0), A("F", NONE, 0, 0)}
+TourPoints == {<<M_UPDATE, ANY>>, <<M_ENTRY_GUARD, ANY>>, <<M_EXIT_GUARD, ANY>>}
+TourView == <<st, lbl>>
 TinyActs == {A("T", 0, 0, 0), A("X", 0, 0, 0)}
 GuardOps == {O("ctor"), O("dtor"), O("enter"), O("exit"), O("update")} \cup {Op("ito", d, 0, 0) : d \in States} \cup {Op("to", d, 0, 0) : d \in States}
 GuardActs == {A("T", d, 0, 0) : d \in States} \cup {A("X", 0, 0, 0)}
